@@ -56,6 +56,9 @@ Net4 == Net(<<10, 0, 0, 0>>, <<255, 0, 0, 0>>)
 Net6 == Net(<<32, 1, 13, 184, 0, 0, 0, 0, 0, 0, 0, 0, 0, 0, 0, 0>>,
             <<255, 255, 255, 255, 0, 0, 0, 0, 0, 0, 0, 0, 0, 0, 0, 0>>)
 
+\* 10.0.0.0/8 with the address in 16-byte form and a 4-byte mask
+Net4in16 == Net(<<0, 0, 0, 0, 0, 0, 0, 0, 0, 0, 255, 255, 10, 0, 0, 0>>, <<255, 0, 0, 0>>)
+
 X(kind, crit, oid, hex, n, b, strs) == ExtraRec(kind, crit, oid, hex, n, b, strs)
 XRaw(oid, crit, hex) == X("raw", crit, oid, hex, 0, FALSE, <<>>)
 \* one well-formed overriding value per extension the library generates itself
@@ -116,7 +119,7 @@ FieldVals ==
     ncCrit   |-> BOOLEAN,
     pDNS     |-> {<<>>, <<".example">>, <<"a.example", "b.example">>}, xDNS |-> {<<>>, <<"bad.example">>},
     pEmail   |-> {<<>>, <<"example.com">>}, xEmail |-> {<<>>, <<"user@bad.example">>},
-    pIP      |-> {<<>>, <<Net4>>, <<Net4, Net6>>}, xIP |-> {<<>>, <<Net6>>},
+    pIP      |-> {<<>>, <<Net4>>, <<Net4, Net6>>, <<Net4in16>>}, xIP |-> {<<>>, <<Net6>>, <<Net6, Net4in16>>},
     pDir     |-> {<<>>, <<[N("") EXCEPT !.o = <<"Permitted Org">>]>>}, xDir |-> {<<>>, <<NameFull>>},
     extras   |-> {<<>>, <<XRaw("1.3.6.1.4.1.99999.42", FALSE, "0500")>>,
                   <<XRaw("1.3.6.1.4.1.99999.43", TRUE, "04030a0b0c"), XRaw("1.3.6.1.4.1.99999.42", FALSE, "")>>,
